@@ -59,3 +59,64 @@ def fresh_dir(root, prefix):
         shutil.rmtree(d, ignore_errors=True)
     os.makedirs(d)
     return d
+
+
+class ProcessState:
+    """Import-time snapshot of the module- and class-level state of the code
+    under test.  `restore()` puts it back at the start of every simulated run:
+    a run models a fresh interpreter, so in-memory state that one run leaves
+    behind in module globals or class attributes (caches, 'last used' slots)
+    must not leak into the next run of the same worker process."""
+
+    def __init__(self, *objs):
+        import copy
+        self._copy = copy
+        self.objs = objs
+        self.saved = [self._snap(o) for o in objs]
+
+    def _snap(self, o):
+        out = {}
+        for k, v in list(vars(o).items()):
+            if k.startswith("__") and k.endswith("__"):
+                continue
+            if isinstance(v, (dict, list, set)):
+                try:
+                    v = self._copy.deepcopy(v)
+                except Exception:  # noqa: keep the reference if it cannot be copied
+                    pass
+            out[k] = v
+        return out
+
+    def restore(self):
+        for o, saved in zip(self.objs, self.saved):
+            cur = vars(o)
+            for k in [k for k in cur if k not in saved
+                      and not (k.startswith("__") and k.endswith("__"))]:
+                try:
+                    delattr(o, k)
+                except (AttributeError, TypeError):
+                    pass
+            for k, v in saved.items():
+                if cur.get(k, _MISSING) is not v:
+                    if isinstance(v, (dict, list, set)):
+                        v = self._copy.deepcopy(v)
+                    try:
+                        setattr(o, k, v)
+                    except (AttributeError, TypeError):
+                        pass
+
+
+def typhon_state():
+    """ProcessState over the typhon modules and classes the checks exercise."""
+    import typhon.files.fileset as fsmod
+    import typhon.files.utils as umod
+    import typhon.files.handlers.common as hmod
+    import typhon.collocations.collocator as cmod
+    import typhon.collocations.common as ccmod
+    import typhon.geographical as gmod
+    import typhon.trees as tmod
+    import typhon.topography as topo
+    return ProcessState(
+        fsmod, fsmod.FileSet, umod, hmod, hmod.FileInfo, hmod.FileHandler,
+        hmod.NetCDF4, hmod.CSV, cmod, cmod.Collocator, ccmod, ccmod.Collocations,
+        gmod, gmod.GeoIndex, tmod, tmod.IntervalTree, topo, topo.SRTM30)
